@@ -206,5 +206,107 @@ pub fn run(r: &mut Runner) -> &'static str {
         HEADS.len() - 1
     );
     r.bulk("c01.tokens", Some(&space), &work, &judge);
+
+    // single-field sweeps: every decimal numeral of 1..=5 digits (and the zero-padded ones) in each port position,
+    // every 1..=3-digit string in each IPv4 octet position, every 1..=4-hex-digit string (both cases where they
+    // differ) in each IPv6 group position; all other fields fixed and distinct
+    let known2 = r.known_sigs();
+    let full = !r.quick();
+    let fields_work = |shard: usize, nshards: usize, st: &mut Stats, stop: &AtomicBool| -> Option<(Vec<u8>, Fail)> {
+        let mut idx: u64 = 0;
+        let mut run = |mk: &dyn Fn() -> String, st: &mut Stats| -> Option<(Vec<u8>, Fail)> {
+            idx += 1;
+            if idx % nshards as u64 != shard as u64 {
+                return None;
+            }
+            let x = mk().into_bytes();
+            if let Err(f) = judge(&x, st) {
+                if known2.contains(&f.sig) {
+                    *st.known_hits.entry(f.sig.clone()).or_insert(0) += 1;
+                } else {
+                    return Some((x, f));
+                }
+            }
+            None
+        };
+        // ports
+        for (pre, post) in [
+            ("PROXY TCP4 1.2.3.4 5.6.7.8 ", " 443\r\n"),
+            ("PROXY TCP4 1.2.3.4 5.6.7.8 80 ", "\r\n"),
+            ("PROXY TCP6 1::2 3::4 ", " 443\r\n"),
+            ("PROXY TCP6 1::2 3::4 80 ", "\r\n"),
+        ] {
+            if stop.load(Ordering::Relaxed) {
+                return None;
+            }
+            for n in 0..=99_999u32 {
+                if let Some(f) = run(&|| format!("{}{}{}", pre, n, post), st) {
+                    return Some(f);
+                }
+            }
+            for n in 0..=9_999u32 {
+                for w in [2usize, 3, 4, 5] {
+                    let txt = format!("{:0w$}", n, w = w);
+                    if txt.starts_with('0') && txt.len() > 1 {
+                        if let Some(f) = run(&|| format!("{}{}{}", pre, txt, post), st) {
+                            return Some(f);
+                        }
+                    }
+                }
+            }
+        }
+        // IPv4 octets
+        for pos in 0..8usize {
+            for digits in 1..=3usize {
+                for n in 0..10u32.pow(digits as u32) {
+                    let txt = format!("{:0w$}", n, w = digits);
+                    let mk = || {
+                        let mut o: Vec<String> = ["10", "20", "30", "40", "50", "60", "70", "80"].iter().map(|s| s.to_string()).collect();
+                        o[pos] = txt.clone();
+                        format!("PROXY TCP4 {}.{}.{}.{} {}.{}.{}.{} 1 2\r\n", o[0], o[1], o[2], o[3], o[4], o[5], o[6], o[7])
+                    };
+                    if let Some(f) = run(&mk, st) {
+                        return Some(f);
+                    }
+                }
+            }
+        }
+        // IPv6 groups
+        for pos in 0..16usize {
+            if stop.load(Ordering::Relaxed) {
+                return None;
+            }
+            for digits in 1..=4usize {
+                let count = 16u32.pow(digits as u32);
+                // quick tier: all strings of 1..=3 digits, every 7th of the 4-digit ones (offset by position)
+                let step = if digits == 4 && !full { 7 } else { 1 };
+                let mut n = if step > 1 { pos as u32 % step } else { 0 };
+                while n < count {
+                    for upper in [false, true] {
+                        let txt = if upper { format!("{:0w$X}", n, w = digits) } else { format!("{:0w$x}", n, w = digits) };
+                        if upper && !txt.bytes().any(|b| b.is_ascii_uppercase()) {
+                            continue;
+                        }
+                        let mk = || {
+                            let mut g: Vec<String> = (1..=16).map(|i| format!("{:x}", i * 0x111)).collect();
+                            g[pos] = txt.clone();
+                            format!("PROXY TCP6 {} {} 1 2\r\n", g[..8].join(":"), g[8..].join(":"))
+                        };
+                        if let Some(f) = run(&mk, st) {
+                            return Some(f);
+                        }
+                    }
+                    n += step;
+                }
+            }
+        }
+        None
+    };
+    let fspace = if full {
+        "every decimal numeral 0..=99999 and every zero-padded numeral up to 5 digits in each of the 4 port positions; every 1..=3-digit string in each of the 8 IPv4 octet positions; every 1..=4-hex-digit string (lower and upper case) in each of the 16 IPv6 group positions; other fields fixed"
+    } else {
+        "every decimal numeral 0..=99999 and every zero-padded numeral up to 5 digits in each of the 4 port positions; every 1..=3-digit string in each of the 8 IPv4 octet positions; every 1..=3-hex-digit string and every 7th 4-hex-digit string (lower and upper case) in each of the 16 IPv6 group positions; other fields fixed"
+    };
+    r.bulk("c01.fields", Some(fspace), &fields_work, &judge);
     "exploration"
 }
